@@ -45,6 +45,8 @@ import (
 // code); the credentials store then folds the result (storeKey).
 
 type xenv struct {
+	cp      string // prefix of the per-class counters: "x_" (groups C/D), "idn_" (groups E/F)
+	idn     bool   // groups E/F: IDN e-mail names (idn_test.go)
 	backend string // "sql", "mem", "file"
 	uni     *universe
 	dir     string
@@ -476,6 +478,18 @@ func (e *env) buildXMap(p *prng.R, label string) error {
 			v, ok := ref[nf]
 			return v, ok
 		}
+	case "regexp-idn-domain":
+		// groups E/F: the pattern is written with the U-label form of the domain,
+		// i.e. it matches what the documented normaliser produces
+		d := x.uni.idnDomain
+		m.cfgText = regexpText(`(.+)@`+strings.ReplaceAll(d, ".", `\.`), []string{"$1"}, "case_insensitive no")
+		m.apply = func(nf string) (string, bool) {
+			suf := "@" + d
+			if len(nf) > len(suf) && strings.HasSuffix(nf, suf) {
+				return nf[:len(nf)-len(suf)], true
+			}
+			return "", false
+		}
 	case "email_localpart":
 		m.cfgText = "email_localpart"
 		m.apply = localpart
@@ -658,9 +672,7 @@ func (e *env) close() {
 // newEnvX builds the environment of a widened case. backend and map kind
 // follow from the index so that every combination occurs in every run.
 func newEnvX(p *prng.R, id string, idx int) (*env, error) {
-	e := &env{id: id, model: &model{accts: map[string]*acct{}}, x: &xenv{}}
-	x := e.x
-	x.backend = xBackends[idx%len(xBackends)]
+	backend := xBackends[idx%len(xBackends)]
 	label := xMapLabels[(idx/len(xBackends))%len(xMapLabels)]
 	var avoid func(string) bool
 	if strings.HasPrefix(label, "email_localpart") {
@@ -668,7 +680,18 @@ func newEnvX(p *prng.R, id string, idx int) (*env, error) {
 		// for a stray quote or backslash is not C14's business
 		avoid = func(a string) bool { return strings.ContainsAny(a, "\"\\") }
 	}
-	x.uni = drawUniverse(p, avoid)
+	return newEnvWith(p, id, "x_", backend, label, func() *universe { return drawUniverse(p, avoid) }, xNormalizers)
+}
+
+// newEnvWith: the common constructor of the widened environments (groups C/D:
+// special names; groups E/F: IDN e-mail names, idn_test.go). cp is the prefix
+// of the per-class counters so that a later group never feeds the min_observed
+// counters of an earlier one. The order of the PRNG draws is fixed.
+func newEnvWith(p *prng.R, id, cp, backend, label string, draw func() *universe, norms []string) (*env, error) {
+	e := &env{id: id, model: &model{accts: map[string]*acct{}}, x: &xenv{cp: cp}}
+	x := e.x
+	x.backend = backend
+	x.uni = draw()
 	e.names = append(e.names, x.uni.names...)
 	dir, err := os.MkdirTemp("", "c14x")
 	if err != nil {
@@ -701,7 +724,7 @@ func newEnvX(p *prng.R, id string, idx int) (*env, error) {
 	}
 	e.pt = mod.(*pass_table.Auth)
 	mx.RegisterInstance(e.pt)
-	e.norm = prng.Pick(p, xNormalizers)
+	e.norm = prng.Pick(p, norms)
 	e.sasl = &auth.SASLAuth{
 		Log:           log.Logger{Name: "c14/sasl", Out: log.NopOutput{}},
 		EnableLogin:   true,
